@@ -97,34 +97,30 @@ theorem scan_finds_ancestor (pre a b : LogSeq) (x : Rec)
     simp [List.take_of_length_le, hlen]
   rw [htake, hcp]
 
-/-- C04/4 (partial).  Soft conflict: both sides appended different events to a shared
-prefix and no commit hash occurs twice anywhere (no byte-identical events).  One sync call
-leaves device and server with the same log: the shared prefix followed by both suffixes
-merged in timestamp order (stable).  Without the distinctness hypothesis the statement is
-false of the code: `identical_tail_no_convergence`. -/
+/-- the merged suffix of two divergent suffixes -/
+def mergedSuffix (a b : LogSeq) : LogSeq := sortByTime (a.filter (notIn b) ++ b)
+
+/-- C04/4 (partial).  Soft conflict: both sides appended events to a shared prefix; the two
+suffixes may SHARE events (an event both hold, or the same event made on both) as long as
+no commit is repeated within one replica's log, the suffixes differ at every equal position
+and the device has at least one event the server lacks.  One sync call leaves device and
+server with the same log: the shared prefix followed by the merged suffix (the device's
+events the server lacks and the server's events, in stable timestamp order).  Without the
+positional hypothesis the statement is false of the code: `identical_tail_no_convergence`. -/
 theorem auto_merge_converges_partial (pre a b : LogSeq) (x : Rec) (ha : a ≠ []) (hb : b ≠ [])
     (hl : C08.Atoms (commits (pre ++ x :: a))) (hr : C08.Atoms (commits (pre ++ x :: b)))
-    (hnd : (commits (pre ++ x :: (a ++ b))).Nodup) :
+    (hndl : (commits (pre ++ x :: a)).Nodup) (hndr : (commits (pre ++ x :: b)).Nodup)
+    (hdis : ∀ (j : Nat) (c : H), (commits a)[j]? = some c → (commits b)[j]? ≠ some c)
+    (hnew : ∃ y ∈ a, y.commit ∉ commits b) :
     syncLog (pre ++ x :: a) (pre ++ x :: b) =
-      (pre ++ x :: sortByTime (a ++ b), pre ++ x :: sortByTime (a ++ b), .merged) := by
-  -- consequences of distinctness
-  have hnd' : (commits pre ++ x.commit :: (commits a ++ commits b)).Nodup := by
-    simpa [commits] using hnd
-  have hnd2 := (List.nodup_append.mp hnd').2.1
-  have hx_ab : x.commit ∉ commits a ++ commits b := (List.nodup_cons.mp hnd2).1
-  have hab : (commits a ++ commits b).Nodup := (List.nodup_cons.mp hnd2).2
-  have hxa : ∀ y ∈ a, y.commit ≠ x.commit := by
-    intro y hy e; apply hx_ab; rw [← e]
-    exact List.mem_append_left _ (List.mem_map_of_mem hy)
-  have hxb : ∀ y ∈ b, y.commit ≠ x.commit := by
-    intro y hy e; apply hx_ab; rw [← e]
-    exact List.mem_append_right _ (List.mem_map_of_mem hy)
-  have hdisj : ∀ c, c ∈ commits a → c ∉ commits b := by
-    intro c h1 h2
-    exact (List.nodup_append.mp hab).2.2 c h1 c h2 rfl
-  have hdis : ∀ (j : Nat) (c : H), (commits a)[j]? = some c → (commits b)[j]? ≠ some c := by
-    intro j c h1 h2
-    exact hdisj c (List.mem_of_getElem? h1) (List.mem_of_getElem? h2)
+      (pre ++ x :: mergedSuffix a b, pre ++ x :: mergedSuffix a b, .merged) := by
+  have hxs : ∀ (s : LogSeq), (commits (pre ++ x :: s)).Nodup → ∀ y ∈ s, y.commit ≠ x.commit := by
+    intro s hs y hy e
+    have h1 : (commits pre ++ x.commit :: commits s).Nodup := by simpa [commits] using hs
+    have h2 := (List.nodup_cons.mp (List.nodup_append.mp h1).2.1).1
+    apply h2; rw [← e]; exact List.mem_map_of_mem hy
+  have hxa := hxs a hndl
+  have hxb := hxs b hndr
   obtain ⟨a0, at_, rfl⟩ : ∃ a0 at_, a = a0 :: at_ := by
     cases a with
     | nil => exact absurd rfl ha
@@ -133,28 +129,24 @@ theorem auto_merge_converges_partial (pre a b : LogSeq) (x : Rec) (ha : a ≠ []
     cases b with
     | nil => exact absurd rfl hb
     | cons b0 bt => exact ⟨b0, bt, rfl⟩
-  have ha0 : a0.commit ∈ commits (a0 :: at_) := by simp [commits]
-  have hb0 : b0.commit ∈ commits (b0 :: bt) := by simp [commits]
+  have h00 : a0.commit ≠ b0.commit := by
+    intro e
+    exact hdis 0 a0.commit (by simp [commits]) (by simp [commits, e])
   -- the two logs differ and neither is a prefix of the other
   have hsplit : ∀ t : LogSeq, commits (pre ++ x :: t) = commits (pre ++ [x]) ++ commits t := by
     intro t; simp [commits]
-  have hnpre : ∀ (s t : LogSeq), (∀ c, c ∈ commits s → c ∉ commits t) → s ≠ [] → t ≠ [] →
-      ¬ commits (pre ++ x :: s) <+: commits (pre ++ x :: t) := by
-    intro s t hst hs ht ⟨w, hw⟩
-    rw [hsplit s, hsplit t, List.append_assoc] at hw
+  have hnpre : ∀ (s0 t0 : Rec) (s t : LogSeq), s0.commit ≠ t0.commit →
+      ¬ commits (pre ++ x :: s0 :: s) <+: commits (pre ++ x :: t0 :: t) := by
+    intro s0 t0 s t hst ⟨w, hw⟩
+    rw [hsplit (s0 :: s), hsplit (t0 :: t), List.append_assoc] at hw
     have hw2 := List.append_cancel_left hw
-    cases s with
-    | nil => exact hs rfl
-    | cons s0 st =>
-      have : s0.commit ∈ commits t := by
-        have h1 : commits (s0 :: st) ++ w = commits t := hw2
-        rw [← h1]; simp [commits]
-      exact hst s0.commit (by simp [commits]) this
+    simp only [commits, List.map_cons, List.cons_append, List.cons.injEq] at hw2
+    exact hst hw2.1
   have hne : commits (pre ++ x :: a0 :: at_) ≠ commits (pre ++ x :: b0 :: bt) := by
     intro e
-    exact hnpre (a0 :: at_) (b0 :: bt) hdisj (by simp) (by simp) ⟨[], by rw [e]; simp⟩
-  have hnp1 := hnpre (b0 :: bt) (a0 :: at_) (fun c h1 h2 => hdisj c h2 h1) (by simp) (by simp)
-  have hnp2 := hnpre (a0 :: at_) (b0 :: bt) hdisj (by simp) (by simp)
+    exact hnpre a0 b0 at_ bt h00 ⟨[], by rw [e]; simp⟩
+  have hnp1 := hnpre b0 a0 bt at_ (Ne.symm h00)
+  have hnp2 := hnpre a0 b0 at_ bt h00
   unfold syncLog
   rw [if_neg hne]
   rw [offer_compare_of_not_prefix _ _ hl hr (by simp) (by simp) hne hnp1]
@@ -167,14 +159,15 @@ theorem auto_merge_converges_partial (pre a b : LogSeq) (x : Rec) (ha : a ≠ []
   rw [after_unique pre (a0 :: at_) x hxa, after_unique pre (b0 :: bt) x hxb,
     upTo_unique pre (a0 :: at_) x hxa, upTo_unique pre (b0 :: bt) x hxb]
   simp only
-  have hmp : mergePatches (a0 :: at_) (b0 :: bt) = .pushRemote (sortByTime ((a0 :: at_) ++ (b0 :: bt))) := by
-    unfold mergePatches
+  have hmp : mergePatches (a0 :: at_) (b0 :: bt) = .pushRemote (mergedSuffix (a0 :: at_) (b0 :: bt)) := by
+    unfold mergePatches mergedSuffix
     have : ((commits (a0 :: at_)).all fun c => (commits (b0 :: bt)).contains c) = false := by
       rw [Bool.eq_false_iff]
       intro hall
       simp only [List.all_eq_true, List.contains_iff_mem] at hall
-      have := hall a0.commit ha0
-      exact hdisj a0.commit ha0 (by simpa using this)
+      obtain ⟨y, hy, hyn⟩ := hnew
+      have := hall y.commit (List.mem_map_of_mem hy)
+      exact hyn (by simpa using this)
     rw [this]; simp
   rw [hmp]
   simp only
@@ -182,6 +175,59 @@ theorem auto_merge_converges_partial (pre a b : LogSeq) (x : Rec) (ha : a ≠ []
     rw [List.take_append]; simp [List.take_of_length_le]
   rw [htake]
   simp
+
+/-- Corollary: with pairwise distinct events everywhere the merged suffix is the stable
+timestamp-ordered union of both suffixes. -/
+theorem auto_merge_converges_distinct (pre a b : LogSeq) (x : Rec) (ha : a ≠ []) (hb : b ≠ [])
+    (hl : C08.Atoms (commits (pre ++ x :: a))) (hr : C08.Atoms (commits (pre ++ x :: b)))
+    (hnd : (commits (pre ++ x :: (a ++ b))).Nodup) :
+    syncLog (pre ++ x :: a) (pre ++ x :: b) =
+      (pre ++ x :: sortByTime (a ++ b), pre ++ x :: sortByTime (a ++ b), .merged) := by
+  have hnd' : (commits pre ++ x.commit :: (commits a ++ commits b)).Nodup := by
+    simpa [commits] using hnd
+  have hp := List.nodup_append.mp hnd'
+  have hnd2 := hp.2.1
+  have hab : (commits a ++ commits b).Nodup := (List.nodup_cons.mp hnd2).2
+  have hx_ab : x.commit ∉ commits a ++ commits b := (List.nodup_cons.mp hnd2).1
+  have hdisj : ∀ c, c ∈ commits a → c ∉ commits b := by
+    intro c h1 h2
+    exact (List.nodup_append.mp hab).2.2 c h1 c h2 rfl
+  have hndl : (commits (pre ++ x :: a)).Nodup := by
+    have : commits (pre ++ x :: a) = commits pre ++ x.commit :: commits a := by simp [commits]
+    rw [this, List.nodup_append]
+    refine ⟨hp.1, ?_, ?_⟩
+    · rw [List.nodup_cons]
+      exact ⟨fun h => hx_ab (List.mem_append_left _ h), (List.nodup_append.mp hab).1⟩
+    · intro u hu v hv
+      apply hp.2.2 u hu v
+      rcases List.mem_cons.mp hv with h | h
+      · exact List.mem_cons.mpr (Or.inl h)
+      · exact List.mem_cons.mpr (Or.inr (List.mem_append_left _ h))
+  have hndr : (commits (pre ++ x :: b)).Nodup := by
+    have : commits (pre ++ x :: b) = commits pre ++ x.commit :: commits b := by simp [commits]
+    rw [this, List.nodup_append]
+    refine ⟨hp.1, ?_, ?_⟩
+    · rw [List.nodup_cons]
+      exact ⟨fun h => hx_ab (List.mem_append_right _ h), (List.nodup_append.mp hab).2.1⟩
+    · intro u hu v hv
+      apply hp.2.2 u hu v
+      rcases List.mem_cons.mp hv with h | h
+      · exact List.mem_cons.mpr (Or.inl h)
+      · exact List.mem_cons.mpr (Or.inr (List.mem_append_right _ h))
+  have hdis : ∀ (j : Nat) (c : H), (commits a)[j]? = some c → (commits b)[j]? ≠ some c := by
+    intro j c h1 h2
+    exact hdisj c (List.mem_of_getElem? h1) (List.mem_of_getElem? h2)
+  have hnew : ∃ y ∈ a, y.commit ∉ commits b := by
+    cases a with
+    | nil => exact absurd rfl ha
+    | cons a0 at_ => exact ⟨a0, by simp, hdisj a0.commit (by simp [commits])⟩
+  have hfil : a.filter (notIn b) = a := by
+    rw [List.filter_eq_self]
+    intro y hy
+    have := hdisj y.commit (List.mem_map_of_mem hy)
+    simp [notIn, this]
+  have := auto_merge_converges_partial pre a b x ha hb hl hr hndl hndr hdis hnew
+  rw [this, mergedSuffix, hfil]
 
 private def x0 : Rec := { time := 1, commit := H.leaf [0], bytes := [0] }
 private def u : Rec := { time := 2, commit := H.leaf [1], bytes := [1] }
@@ -195,6 +241,11 @@ stops at the identical event, both "patches since the ancestor" are empty, the c
 reports success and the replicas still differ. -/
 theorem identical_tail_no_convergence :
     syncLog [x0, u, d1] [x0, v, d2] = ([x0, u, d1], [x0, v, d2], .rewound) := by decide
+
+/-- The three-device history found by the C09 schedules (an older event `u` of a third device
+was merged on the server in front of the shared event `v`): one call converges, `v` once. -/
+theorem shared_event_after_ancestor_converges :
+    syncLog [x0, v, d1] [x0, u, v] = ([x0, u, v, d1], [x0, u, v, d1], .merged) := by decide
 
 /-- With distinct events the same history converges in one call. -/
 example : syncLog [x0, u] [x0, v] = ([x0, u, v], [x0, u, v], .merged) := by decide
